@@ -8,7 +8,7 @@ from vf import kernel
 from vf.props.c01 import F_K, K_STUBS, OPTSETS
 
 
-def _mk_expand(n, oname, tiers, timeout, wmax=60):
+def _mk_expand(n, oname, tiers, timeout, wmax=240, cell_hi=200):
     opts = dict(OPTSETS[oname])
     opts["expand"] = True
     if opts.get("ratios"):
@@ -16,11 +16,11 @@ def _mk_expand(n, oname, tiers, timeout, wmax=60):
 
     @symx("C07-kernel-expand-%dcol-%s" % (n, oname), tiers=tiers, timeout=timeout, kind="S", functions=F_K, stubs=K_STUBS,
           opts={"query_timeout_ms": 900000},
-          bounds="%d flexible columns without width caps, expand=True, cell measurements 0<=min<=max<=40 symbolic, budget from the "
-                 "structural minimum to %d symbolic, options %r: the column widths sum to exactly the budget" % (n, wmax, opts),
+          bounds="%d flexible columns without width caps, expand=True, cell measurements 0<=min<=max<=%d symbolic, budget from the "
+                 "structural minimum to %d symbolic, options %r: the column widths sum to exactly the budget" % (n, cell_hi, wmax, opts),
           outside="more than 3 columns; columns with explicit width / max_width (the statement excludes caps)")
     def h(e):
-        t, cells = kernel.mk_table(e, n, opts)
+        t, cells = kernel.mk_table(e, n, opts, cell_hi=cell_hi)
         w = e.mk("w", kernel.structural_min(t, n), wmax)
         widths = t._calculate_column_widths(kernel.console(), w)
         return sum(widths) == w
@@ -44,8 +44,8 @@ def _mk_capped(n, tiers, timeout):
     def h(e):
         cap = e.mk("cap", 1, 20)
         opts = {"expand": True if e.mkbool("expand") else False, "col_max": [cap] + [None] * (n - 1)}
-        t, cells = kernel.mk_table(e, n, opts)
-        w = e.mk("w", 0, 60)
+        t, cells = kernel.mk_table(e, n, opts, cell_hi=200)
+        w = e.mk("w", 0, 240)
         e.assume(w >= kernel.structural_min(t, n))
         widths = t._calculate_column_widths(kernel.console(), w)
         return sum(widths) <= w
